@@ -13,8 +13,10 @@ def run(tier):
     if tier == "quick":
         cfgs, beh = model_behaviours(c, tier, cfgsel=[1, 2, 4, 7, 13, 20, 21])
     else:
-        cfgs, beh = model_behaviours(c, tier, cfgsel=[1, 2, 4, 7, 13, 20])
-        cfgs2, beh2 = model_behaviours(c, tier, cfgsel=[21], maxuses=2)      # (three uses of the pair configuration: 1.5 million spellings)
+        # three uses per line for two configurations, two uses for the others (the whole family with three uses is
+        # tens of millions of spellings: outside the thorough budget)
+        cfgs, beh = model_behaviours(c, tier, cfgsel=[1, 7], maxuses=3)
+        cfgs2, beh2 = model_behaviours(c, tier, cfgsel=[2, 4, 13, 20, 21], maxuses=2)
         beh += beh2
     # R: every spelling of every VALID line of the model through the real handler
     script = os.path.join(c.wd, "replay.ndjson")
